@@ -1,5 +1,104 @@
-"""C05 - points() enumerates exactly the points contains() accepts  (metadata; generators live here and/or in props/C05_*.py parts)"""
-CLAIMED = False   # set True by the owner once ./check C05 passes with real theorems
+"""C05 - points() enumerates exactly the points contains() accepts
+(metadata + the Rectangle/Circle/Ellipse generators; further shapes add props/C05_*.py parts)"""
+from common import *
+
 LEVEL = 'proof'
-LEVEL_TEXT = 'TODO'
-LEVEL_NOTE = 'TODO'
+POSITIONS = [(0, 0), (-7, 3), (-30, -41), (5, -2)]
+
+
+def cases(tier, rng):
+    N = 20 if tier == 'quick' else 40
+    for d in range(0, N + 1):
+        for (x, y) in POSITIONS[:3]:
+            yield J('circ_geom', x, y, d, 2)
+        for n in range(-4, 5):
+            yield J('circ_offset', 3, -5, d, n)
+        yield J('circ_wc', -4, 9, d)
+    k = 0
+    for w in range(0, N + 1):
+        for h in range(0, N + 1):
+            x, y = POSITIONS[k % len(POSITIONS)]
+            k += 1
+            yield J('ell_geom', x, y, w, h, 2)
+            yield J('ell_offset', x, y, w, h, (k % 9) - 4)
+            yield J('ell_wc', y, x, w, h)
+    # larger and random shapes
+    n = 150 if tier == 'quick' else 1500
+    for _ in range(n):
+        x, y = coord(rng), coord(rng)
+        d = rng.randrange(0, 90)
+        yield J('circ_geom', x, y, d, 1)
+        yield J('circ_offset', x, y, d, rng.randrange(-50, 51))
+        w, h = rng.choice([(rng.randrange(0, 70), rng.randrange(0, 70)), (rng.randrange(0, 6), rng.randrange(0, 120)),
+                           (rng.randrange(0, 120), rng.randrange(0, 6))])
+        yield J('ell_geom', x, y, w, h, 1)
+        yield J('ell_offset', x, y, w, h, rng.randrange(-40, 41))
+    # display-sized shapes (the ellipse test needs 64 bit products here: repair c18b215)
+    for (w, h) in [(320, 240), (400, 3), (3, 400), (257, 255), (2, 301)] + ([(640, 480), (1000, 7)] if tier != 'quick' else []):
+        yield J('ell_geom', -160, -100, w, h, 1)
+    yield J('circ_geom', -100, -130, 240 if tier == 'quick' else 500, 1)
+    for _ in range(n):
+        # range edges of the model's saturating operations (positions only; no point lists)
+        x, y = coord(rng, True), coord(rng, True)
+        yield J('circ_offset', x, y, extent(rng, True), rng.randrange(-2 ** 19, 2 ** 19))
+        yield J('ell_offset', x, y, extent(rng, True), extent(rng, True), rng.randrange(-2 ** 19, 2 ** 19))
+        yield J('circ_wc', x, y, extent(rng, True))
+        yield J('ell_wc', x, y, extent(rng, True), extent(rng, True))
+
+
+def search(tier, rng):
+    N = 24 if tier == 'quick' else 64
+    for d in range(0, N + 1):
+        for (x, y) in POSITIONS:
+            yield J('p_circ_c05', x, y, d)
+    k = 0
+    for w in range(0, N + 1):
+        for h in range(0, N + 1):
+            x, y = POSITIONS[k % len(POSITIONS)]
+            k += 1
+            yield J('p_ell_c05', x, y, w, h)
+    for w in range(0, 7):
+        for h in range(0, 7):
+            yield J('p_rect_c05', -3, 2, w, h)
+    n = 300 if tier == 'quick' else 4000
+    for _ in range(n):
+        x, y = coord(rng), coord(rng)
+        yield J('p_circ_c05', x, y, rng.randrange(0, 150))
+        w, h = rng.choice([(rng.randrange(0, 80), rng.randrange(0, 80)), (rng.randrange(0, 6), rng.randrange(0, 200)),
+                           (rng.randrange(0, 200), rng.randrange(0, 6))])
+        yield J('p_ell_c05', x, y, w, h)
+        yield J('p_rect_c05', *rect(rng))
+
+
+def trivial(line, res):
+    return res in ('', 'none', '0') or res.endswith('PTS  IN ')
+
+
+RULE = ('Rectangle/Circle/Ellipse: correspondence of contains() over the bounding box + margin, the points() list, bounding_box(), '
+        'center(), offset(), with_center() between the extracted model and the code for ALL diameters 0..N and ALL axis pairs '
+        '0..N x 0..N (N=20 quick, 40 thorough) at several positions incl. negative, plus random larger shapes and range-edge '
+        'positions for the saturating operations. search: the C05 predicate itself (points() == row-major filter of contains() over '
+        'box+margin, strictly row-major, inside bounding_box(), far probes outside the box) on the code for all sizes up to 24/64 '
+        'and random sizes up to 200. non-trivial = the shape has at least one point.')
+EXHAUSTIVE = {'quick': False, 'thorough': False}
+ASSUMPTIONS = ['top-left coordinates within +-2^29, diameter / width / height within 0..2^29: the range in which the saturating '
+               'operations of the model are not reached; products (diameter^2, width^2*height^2, squared doubled distances) are unbounded '
+               'integers in the model while the code computes the circle test in i32/u32 and the ellipse test in i64/u64 (since c18b215) - '
+               'agreement therefore needs diameter < 2^15 resp. width*height < 2^31 and probe points within that distance of the centre '
+               '(arithmetic overflow at larger sizes is the subject of C08, not of C05)']
+TRUSTED = ['modelled, not verified: `as u32` of a non-negative i32 squared distance, u32 `/` as Z.div, Range<i32>::find as List.find '
+           'over the integer range']
+PARTIAL = []
+
+LEVEL_TEXT = ('Proof: Coq theorems over the Gallina models of Rectangle, Circle and Ellipse state that points() is literally '
+              '`filter contains (row-major points of bounding_box())` - hence every accepted point exactly once, in row-major order, '
+              'inside the bounding box - and that contains() is false outside the bounding box, for every position within +-2^29 and '
+              'every size (0, 1, 2, thin and flat shapes included). The scanline iterators are modelled as written (first hit per row, '
+              'mirrored right end, circle: a row without hit ends the iteration, ellipse: such rows are skipped) and proved equal to the '
+              'filter via a generic scanline lemma (mirror symmetry + convexity of the row predicate) and, for circles, the lemma that '
+              'every row of the box has a hit. The models are tied to the code by running extracted model and real methods on the same '
+              'inputs on every run (all diameters / axis pairs up to N). Other shapes: see the parts.')
+LEVEL_NOTE = ('Trusted: Coq kernel, extraction (ExtrOcamlBasic), the OCaml/Rust drivers; the hand-written model is validated by '
+              'differential testing, not proved equal to the Rust code; arithmetic is unbounded Z (see assumptions).')
+
+CLAIMED = True
